@@ -119,15 +119,15 @@ pub fn angle_conv(deg: bool) {
 }
 
 //@ id=C12 tier=quick to=600 cfg=std exh=1 stub=1 stubs="<&TwoFloat as Mul<&TwoFloat>>::mul -> recording UF" desc="to_degrees: for every x, exactly one TwoFloat multiplication of x by the mpmath-rounded double-double of 180/pi, whose result is returned unchanged (6u^2 then follows from C04's 5u^2 + 2^-107 constant error, on paper)"
-#[cfg_attr(kani, kani::proof)]
-#[cfg_attr(kani, kani::stub(<&twofloat::TwoFloat as core::ops::Mul<&twofloat::TwoFloat>>::mul, crate::uf::uf_mul_tt))]
+#[cfg_attr(all(kani, feature = "stubs"), kani::proof)]
+#[cfg_attr(all(kani, feature = "stubs"), kani::stub(<&twofloat::TwoFloat as core::ops::Mul<&twofloat::TwoFloat>>::mul, crate::uf::uf_mul_tt))]
 pub fn c12_to_degrees_structure() {
     angle_conv(true)
 }
 
 //@ id=C12 tier=quick to=600 cfg=std exh=1 stub=1 stubs="<&TwoFloat as Mul<&TwoFloat>>::mul -> recording UF" desc="to_radians: for every x, exactly one TwoFloat multiplication of x by the mpmath-rounded double-double of pi/180, whose result is returned unchanged"
-#[cfg_attr(kani, kani::proof)]
-#[cfg_attr(kani, kani::stub(<&twofloat::TwoFloat as core::ops::Mul<&twofloat::TwoFloat>>::mul, crate::uf::uf_mul_tt))]
+#[cfg_attr(all(kani, feature = "stubs"), kani::proof)]
+#[cfg_attr(all(kani, feature = "stubs"), kani::stub(<&twofloat::TwoFloat as core::ops::Mul<&twofloat::TwoFloat>>::mul, crate::uf::uf_mul_tt))]
 pub fn c12_to_radians_structure() {
     angle_conv(false)
 }
